@@ -56,3 +56,17 @@ def version_fields(start_height, recv_port, trans_port, protocol_version, servic
         "start_height": start_height,
         "relay": relay,
     }
+
+
+def split_frames(stream: bytes):
+    """cut a stream into frames by the DECLARED payload lengths: [(magic, command, payload, checksum_ok)] - used where a
+    corrupt frame (checksum only; magic and length intact) is followed by further frames"""
+    out, o = [], 0
+    while len(stream) - o >= 24:
+        n = int.from_bytes(stream[o + 16:o + 20], "little")
+        if len(stream) - o - 24 < n:
+            break
+        payload = stream[o + 24:o + 24 + n]
+        out.append((stream[o:o + 4], stream[o + 4:o + 16].rstrip(b"\x00"), payload, h256(payload)[:4] == stream[o + 20:o + 24]))
+        o += 24 + n
+    return out
